@@ -21,6 +21,16 @@ CHECKS = {
             'Trusted: the rst table parser in drivers/c08.py; the sampled 4x4 start planes standing for "a compatible '
             'wavefront". Rotate and Flip are recorded known findings.',
             'TLA+ state machine from the documentation tables, TLC-generated programs replayed into lentil'),
+    'C06': ('model_checking',
+            'FieldAlg.tla defines multiply / merge / reduce / insert and the extent queries on the embedding of a field in '
+            'Z^2 (pixel sets, pointwise Gaussian-integer arithmetic). TLC checks the rectangle calculus against pixel sets '
+            'exhaustively (all shapes <= 3x3 [4x4], offsets +-3 [+-5]) and evaluates the semantics on a case file (exhaustive '
+            'over small shapes/offsets in the thorough tier, seed-sampled from the same space in the quick tier); every case is '
+            'executed on real lentil.field / lentil.extent objects and compared exactly.',
+            'DESIGN.md 5 C06',
+            'Trusted: render() abstraction in drivers/c06.py. 1x1 arrays are constants in multiply and pixels in '
+            'insert/merge, so the latter are exercised with >= 2 elements.',
+            'TLA+ embedding semantics evaluated by TLC as oracle, exact comparison with lentil'),
 }
 
 NOT_YET = 'check not built yet in this round (planned, see DESIGN.md section 5)'
